@@ -510,6 +510,13 @@ func (f *Frame) builtin(c *cursor, site ssa.Instruction, call *ssa.CallCommon, b
 		e.setFamily(st, hf, ite(eq(m, intLit(0)), hasArr, store(hasArr, m, store(sel(hasArr, m, arraySort(ks, SBool)), key, tFalse))))
 		return nil
 	case "close":
+		// ghost: the channel is closed from now on
+		if len(call.Args) == 1 {
+			if chv, ok := f.vals[call.Args[0]]; ok {
+				e.famSort["Chan.closed"] = arraySort(SInt, SBool)
+				e.setFamily(c.st, "Chan.closed", store(e.family(c.st, "Chan.closed", arraySort(SInt, SBool)), chv, tTrue))
+			}
+		}
 		return nil
 	case "recover":
 		r := e.declare(f.pfx+"recovered", SIface)
@@ -867,10 +874,10 @@ func mentionsSite(x *SExpr) bool {
 	if x == nil {
 		return false
 	}
-	if x.Op == "call" && len(x.Args) > 0 && x.Args[0] != nil && x.Args[0].Op == "ident" && (x.Args[0].Name == "site" || x.Args[0].Name == "sitearg" || x.Args[0].Name == "siteret" || x.Args[0].Name == "at") {
+	if x.Op == "call" && len(x.Args) > 0 && x.Args[0] != nil && x.Args[0].Op == "ident" && (x.Args[0].Name == "site" || x.Args[0].Name == "sitearg" || x.Args[0].Name == "siteret" || x.Args[0].Name == "at" || x.Args[0].Name == "after") {
 		return true
 	}
-	if x.Op == "call" && (x.Name == "site" || x.Name == "sitearg" || x.Name == "siteret" || x.Name == "at") {
+	if x.Op == "call" && (x.Name == "site" || x.Name == "sitearg" || x.Name == "siteret" || x.Name == "at" || x.Name == "after") {
 		return true
 	}
 	for _, a := range x.Args {
